@@ -1,4 +1,5 @@
 import QipVerif.Lemmas.SimKetLib
+import QipVerif.Lemmas.SimKetTrace
 /-!
 # C01 — gate-level evolution equals the ordered product of the gates' matrices
 
@@ -363,6 +364,52 @@ theorem compact_pipeline_eq_den (N : ℕ) (ops : List (Op ℂ)) (hne : ops ≠ [
         .ok (R, sortDedup (ops.map (stepQubits N)).flatten) ∧
       embL N (sortDedup (ops.map (stepQubits N)).flatten) R = denP (ops.map (toPGate N)) :=
   compact_pipeline N ops hne hw
+
+/-! ## The step-by-step trajectory (`initialize`, `step`, reading `state` after every step) -/
+
+/-- **`trajectory_prefix`** (over arbitrary scalars).  The list of states recorded after every step has one
+entry per step, and entry `k` is the run of the first `k + 1` steps on the input — a value that later steps
+cannot change (the model is immutable; the contract for the code is that a `Qobj` returned by
+`CircuitSimulator.state` never changes afterwards: no aliasing of the internal buffer, cf. `C16.no_alias`). -/
+theorem trajectory_prefix {α : Type} (o : Ops α) (ops : List (Op α)) (st : Tensor α) (l : List (Tensor α))
+    (h : traceKet o ops st = .ok l) :
+    l.length = ops.length ∧ ∀ k (hk : k < l.length), runKet o (ops.take (k + 1)) st = .ok l[k] :=
+  ⟨traceKet_length o ops st l h, traceKet_prefix o ops st l h⟩
+-- non-vacuity: X, then two phases, on one qubit: the recorded states are [|1⟩, i|1⟩, -|1⟩]
+example : (traceKet CycD.ops [.gate [0] 1 [[CycD.zero, CycD.one], [CycD.one, CycD.zero]], .phase ⟨0, Cyc.I⟩, .phase ⟨0, Cyc.I⟩]
+      (ketTensor 1 [CycD.one, CycD.zero])).toOption.map (·.map (·.data)) =
+    some [[CycD.zero, CycD.one], [CycD.zero, ⟨0, Cyc.I⟩], [CycD.zero, ⟨0, Cyc.neg Cyc.one⟩]] := by
+  decide +kernel
+
+/-- **`trajectory_eq_den`.** For every register size, every measurement-free circuit of well-placed steps and
+every input ket: stepping succeeds, and the state recorded after step `k + 1` is the ordered product of the
+first `k + 1` gates applied to the input — for every `k`, whatever steps follow (GLOBALPHASE included). -/
+theorem trajectory_eq_den (N : ℕ) (ops : List (Op ℂ)) (hw : ∀ op ∈ ops, WFOp N op) (amps : List ℂ) :
+    ∃ l, traceKet opsC ops (ketTensor N amps) = .ok l ∧ l.length = ops.length ∧
+      ∀ k (hk : k < l.length),
+        ketOf N l[k] = (denP ((ops.take (k + 1)).map (toPGate N))).mulVec (ketOf N (ketTensor N amps)) := by
+  obtain ⟨T, hT, _, _⟩ := ket_run N ops hw amps
+  obtain ⟨l, hl⟩ := traceKet_ok_of_run opsC ops _ T hT
+  refine ⟨l, hl, traceKet_length _ _ _ _ hl, fun k hk => ?_⟩
+  have h1 := traceKet_prefix opsC ops _ l hl k hk
+  obtain ⟨T', g1, _, g3⟩ := ket_run N (ops.take (k + 1)) (fun op hop => hw op (List.mem_of_mem_take hop)) amps
+  rw [h1] at g1
+  cases g1
+  exact g3
+
+/-- the same for an operator-valued input (`compute_unitary` stepped: the partial unitaries) -/
+theorem trajectory_oper_eq_den (N : ℕ) (ops : List (Op ℂ)) (hw : ∀ op ∈ ops, WFOp N op) (rows : List (List ℂ)) :
+    ∃ l, traceKet opsC ops (operTensor N rows) = .ok l ∧ l.length = ops.length ∧
+      ∀ k (hk : k < l.length),
+        operOf N l[k] = denP ((ops.take (k + 1)).map (toPGate N)) * operOf N (operTensor N rows) := by
+  obtain ⟨T, hT, _, _⟩ := oper_run N ops hw rows
+  obtain ⟨l, hl⟩ := traceKet_ok_of_run opsC ops _ T hT
+  refine ⟨l, hl, traceKet_length _ _ _ _ hl, fun k hk => ?_⟩
+  have h1 := traceKet_prefix opsC ops _ l hl k hk
+  obtain ⟨T', g1, _, g3⟩ := oper_run N (ops.take (k + 1)) (fun op hop => hw op (List.mem_of_mem_take hop)) rows
+  rw [h1] at g1
+  cases g1
+  exact g3
 
 /-! ## Circuits of library gates, against the shared specification object `denG` -/
 
